@@ -167,15 +167,37 @@ def discarded_results(ctx, funcs, rule='DISCARD'):
                 continue
             # side effects: stores to attributes / globals / mutation of parameters / calls on self
             effect = False
+            # names that may refer to (part of) an argument object
+            tainted = set(f.params())
+            def _root(e):
+                while isinstance(e, (ast.Subscript, ast.Attribute)):
+                    e = e.value
+                return e.id if isinstance(e, ast.Name) else None
+            changed = True
+            while changed:
+                changed = False
+                for x in walk_local(f.node):
+                    if isinstance(x, ast.Assign) and _root(x.value) in tainted:
+                        for t in x.targets:
+                            if isinstance(t, ast.Name) and t.id not in tainted:
+                                tainted.add(t.id)
+                                changed = True
+                    if isinstance(x, ast.For) and _root(x.iter) in tainted:
+                        for t in ast.walk(x.target):
+                            if isinstance(t, ast.Name) and t.id not in tainted:
+                                tainted.add(t.id)
+                                changed = True
             for x in walk_local(f.node):
                 if isinstance(x, ast.Attribute) and isinstance(x.ctx, (ast.Store, ast.Del)):
+                    effect = True
+                if isinstance(x, ast.Subscript) and isinstance(x.ctx, (ast.Store, ast.Del)) and _root(x) in tainted:
                     effect = True
                 if isinstance(x, ast.Global):
                     effect = True
                 if isinstance(x, ast.Call) and isinstance(x.func, ast.Attribute) and x.func.attr in (
                         'append', 'extend', 'insert', 'pop', 'remove', 'update', 'setdefault', 'write', 'writerow', 'sort', 'reverse', 'clear'):
                     tgt = x.func.value
-                    if isinstance(tgt, ast.Attribute) or (isinstance(tgt, ast.Name) and tgt.id in f.params()):
+                    if isinstance(tgt, ast.Attribute) or _root(tgt) in tainted:
                         effect = True
                 if isinstance(x, ast.Call) and (dotted(x.func) or '').startswith(('self.', 'cls.')) \
                         and not (dotted(x.func) or '').split('.')[-1].startswith(('_verify', '_handle')):
@@ -226,3 +248,42 @@ def flag_drops(ctx, funcs, rule='RX-FLAGS'):
                 else:
                     ctx.ok(rule, f"{fi.qualname}: {norm(c)[:60]}", 'flags preserved / none needed')
     return n
+
+
+def freshness(v):
+    """
+    Does evaluating ``v`` produce a new container object, or hand on an
+    existing one?  'fresh': .copy()/list()/dict()/sorted()/deepcopy calls,
+    displays, comprehensions, ``a + b`` (a new list), full slices;
+    'alias': a bare name / attribute / subscript, or a choice between such;
+    'unknown': anything else.
+    """
+    import ast as _a
+    if isinstance(v, (_a.List, _a.Dict, _a.Set, _a.Tuple, _a.ListComp, _a.DictComp, _a.SetComp,
+                      _a.GeneratorExp, _a.Constant, _a.JoinedStr)):
+        return 'fresh'
+    if isinstance(v, _a.Call):
+        if isinstance(v.func, _a.Attribute) and v.func.attr in ('copy', 'deepcopy'):
+            return 'fresh'
+        if isinstance(v.func, _a.Name) and v.func.id in ('list', 'dict', 'tuple', 'set', 'sorted', 'deepcopy', 'copy'):
+            return 'fresh'
+        return 'unknown'
+    if isinstance(v, _a.BinOp) and isinstance(v.op, (_a.Add, _a.Mult)):
+        return 'fresh'
+    if isinstance(v, _a.Subscript):
+        if isinstance(v.slice, _a.Slice):
+            return 'fresh'
+        return 'alias'
+    if isinstance(v, (_a.Name, _a.Attribute)):
+        return 'alias'
+    if isinstance(v, _a.IfExp):
+        ks = {freshness(v.body), freshness(v.orelse)}
+    elif isinstance(v, _a.BoolOp):
+        ks = {freshness(x) for x in v.values}
+    else:
+        return 'unknown'
+    if ks == {'fresh'}:
+        return 'fresh'
+    if 'alias' in ks:
+        return 'alias'
+    return 'unknown'
